@@ -59,7 +59,12 @@ pub fn gen_rr(p: &mut Prng, typical: i64) -> RR {
         9 | 10 => RR::Offset(-gen_off(p).saturating_abs()),
         11 => RR::Offset(gen_off(p)),
         12 => RR::ValOffset(gen_off(p)),
-        13 | 14 => RR::Register(gen_reg(p)),
+        13 => RR::Register(gen_reg(p)),
+        14 => match p.below(3) {
+            0 => RR::Register(gen_reg(p)),
+            1 => RR::ExprReg(gen_reg(p), gen_off(p)),
+            _ => RR::ValExprReg(gen_reg(p), gen_off(p)),
+        },
         _ => RR::Other,
     }
 }
@@ -71,6 +76,7 @@ pub fn gen_row(p: &mut Prng, arch: Arch) -> RowSpec {
         11..=15 => Cfa::RegOff(DReg::Fp, if p.chance(2, 3) { 16 } else { gen_off(p) }),
         16 => Cfa::RegOff(DReg::Ra, gen_off(p)),
         17 => Cfa::RegOff(DReg::Other, gen_off(p)),
+        18 => Cfa::ExprRegOff(gen_reg(p), gen_off(p)),
         _ => Cfa::Expr,
     };
     match arch {
